@@ -5,6 +5,7 @@ import EtVerif.Props.TrC01
 import EtVerif.Props.TrGo05
 import EtVerif.Props.TrChk
 import EtVerif.Props.TrSrc
+import EtVerif.Props.TrGoSrc
 #print axioms EtVerif.C01.l1_contract
 #print axioms EtVerif.C01.F_contract
 #print axioms EtVerif.C01.fixedpoint_exists_unique
@@ -88,3 +89,10 @@ import EtVerif.Props.TrSrc
 #print axioms EtVerif.TrSrc.compute_src_refuses_validation
 #print axioms EtVerif.TrSrc.oracleOK_of_forall
 #print axioms EtVerif.TrSrc.go_compute_src_distribution
+-- the properties stated about basic.Compute translated TOGETHER WITH the source convergence checker (Props/TrGoSrc)
+#print axioms EtVerif.TrGoSrc.go_compute_src_returns
+#print axioms EtVerif.TrGoSrc.go_compute_src_returns_iterate
+#print axioms EtVerif.TrGoSrc.go_compute_src_terminates_default
+#print axioms EtVerif.TrGoSrc.go_compute_src_converged_bound
+#print axioms EtVerif.TrGoSrc.go_compute_src_converged_bound_unique
+#print axioms EtVerif.TrGoSrc.go_compute_src_default_bound
